@@ -681,10 +681,10 @@ type ckey struct {
 type cop struct {
 	op     string
 	dst    int
-	a, b   int // operand slots; -1 when unused
-	via    *via // when set, the principal operand is an ELEMENT reached through a holder
+	a, b   int   // operand slots; -1 when unused
+	via    *via  // when set, the principal operand is an ELEMENT reached through a holder
 	dims   []int // array2: the dimensions of the host-built array
-	t      int // 0 list, 1 vector, 2 bytes
+	t      int   // 0 list, 1 vector, 2 bytes
 	i, j   int
 	args   []carg
 	keys   []ckey
